@@ -1,5 +1,5 @@
 """Texts for MANIFEST.json (kept apart from the run plans in props.py)."""
-HOOK_COMMITS = ["f8625a4"]
+HOOK_COMMITS = ["f8625a4", "fd57747"]
 ENGINES = [
     {"name": "detsched", "path": "engine/vs + engine/drv", "serves_properties": [],
      "kind_free_text": "property-based testing over generated programs x generated schedules: real oneTBB code compiled with a force-included prelude that turns every std::atomic access, fence, yield, pause, futex call and thread creation into a decision point of a baton-passing scheduler (one runnable thread at a time, SC or x86-TSO store buffers, exact DEADLOCK / SPIN-FIXPOINT detection, virtual time, fresh ASLR-free process per case); cases are pure functions of a choice sequence and failures are shrunk on that sequence; the shrunk case text is the replay file"},
